@@ -362,6 +362,11 @@ class TranslatorC(Translator):
                         ">>>": "ror",
                         "<<<": "rol"
                     }
+                    # The count is taken modulo the size
+                    arg1 = "bignum_umod(%s, %s)" % (
+                        arg1,
+                        self.from_expr(ExprInt(expr.size, expr.size))
+                    )
                     out = "bignum_%s(%s, %d, bignum_to_uint64(%s))" % (
                         op[expr.op], arg0, expr.size, arg1
                     )
